@@ -6,16 +6,20 @@ from rewire_common import *
 
 ID = 'C11'
 COQ_FILES = ['Properties/C11.v']
-THEOREMS = ['C11_und_test_sound', 'C11_dir_test_sound', 'C11_run_connected', 'C11_und_precondition', 'C11_und_rejects',
-            'C11_lattice_cost', 'C11_ring_dist_sym', 'C11_lattice_cost_und_asym_refuted', 'C11_mask']
+THEOREMS = ['C11_und_test_sound', 'C11_dir_test_sound', 'C11_run_connected', 'C11_und_precondition',
+            'C11_und_precondition_complete', 'C11_und_rejects', 'C11_und_accepts', 'C11_und_search_fuel', 'C11_dir_search_fuel',
+            'C11_lattice_cost', 'C11_ring_dist_sym', 'C11_lattice_cost_und_asym_refuted', 'C11_mask', 'C11_mask_asym_refuted']
 RULE = ('connected / strongly connected inputs n=4..9 with few redundant edges (tree+chords, ring+chords, bridges, ER, dense), '
-        'binary and integer weights, itr in {1,2,5}; latticisers with the default D, random symmetric D and (directed, and as a '
+        'binary, integer, signed and dyadic weights in float64/float32/int64/bool arrays, about one case in eight with n=10..20, itr in {1,2,5}; latticisers with the default D, random symmetric D and (directed, and as a '
         'separate stream undirected) asymmetric D; randomize_graph_partial_und with symmetric masks and a separate asymmetric-mask '
         'stream; malformed stream (disconnected / asymmetric input to the undirected _connected routines). Every run is recorded '
         'and replayed by the extracted model (same engine as C01, including the connectivity tests); non-trivial = at least one '
         'accepted swap or a rejection clause exercised; distinct by hash of the case')
-ASSUMES = ['integer weights and integer D: products and comparisons of the lattice condition are exact in binary64',
-           'the connectivity tests are modelled on the support (nonzero pattern); weights are positive in the generated inputs']
+ASSUMES = ['integer or small dyadic weights and D (k/8, k/4): products and comparisons of the lattice condition are exact in binary64; '
+           'the model is over Z and receives them multiplied by a power of two (the lattice condition is homogeneous in R and in D, '
+           'the engine otherwise only moves weights and tests them against 0)',
+           'the connectivity tests are modelled on the support (nonzero pattern); exact for every sign: P is nonzero only where PN is '
+           'zero (`P *= logical_not(PN)` precedes `PN += P`), nothing cancels; signed weights are generated for all routines']
 TRUSTED = ['recording RandomState subclass and add-only hook lines (as for C01)']
 
 
@@ -31,30 +35,27 @@ def conn_case(ctx, fn, lines, pend, pinned=None):
     r = ctx.nprng
     und = fn in UND
     if pinned:
-        A = np.array(pinned['A'], dtype=float); itr = pinned['itr']; seed = pinned['seed']
-        D = None if pinned.get('D') is None else np.array(pinned['D'], dtype=float)
+        A, D, _ = case_arrays(pinned); itr = pinned['itr']; seed = pinned['seed']
         fam = 'pinned'
     else:
         A, fam = gen_graph(r, und, connected=fn in CONN)
-        itr = int(r.choice([1, 2, 5])); seed = int(r.randint(1, 2 ** 31 - 1))
+        n = len(A)
+        itr = int(r.choice([1, 2, 5])) if n < 10 else int(r.choice([1, 2])); seed = int(r.randint(1, 2 ** 31 - 1))
         D = None
         if fn in LATT:
             ch = r.rand()
-            n = len(A)
-            if ch < 0.35:
-                D = None
-            elif ch < 0.7 or und:
-                D = np.triu(r.randint(0, 6, size=(n, n)).astype(float), 1); D = D + D.T
-            else:
-                D = r.randint(0, 6, size=(n, n)).astype(float)
+            if ch >= 0.35:
+                D, dk = gen_D(r, n, ch < 0.7 or und)
+                ctx.count('D:' + dk)
     res = run_impl(fn, A, itr, seed, D=D)
-    case = {'fn': fn, 'A': A.astype(int).tolist(), 'itr': itr, 'seed': seed, 'D': None if D is None else D.astype(int).tolist()}
+    case = {'fn': fn, 'A': jmat(A), 'dtype': str(A.dtype), 'itr': itr, 'seed': seed, 'D': jmat(D)}
     ctx.case(case, nontrivial=len(res['events']) > 0)
-    ctx.count('%s:%s' % (fn, fam)); ctx.count('accepted_swaps', len(res['events']))
+    ctx.count('%s:%s' % (fn, fam)); ctx.count('accepted_swaps', len(res['events'])); ctx.count('n=%d' % len(A)); ctx.count('dtype:' + str(A.dtype))
     if res.get('error') == 'timeout':
         ctx.count('timeout'); return
     if res['error']:
         ctx.fail(fn + ':raises', 'raised on an input in the documented domain: ' + res['error'], case); return
+    A = np.asarray(A); Af = A.astype(float)
     chk = connected_und if und else strongly_connected
     if fn in CONN:
         ctx.check(chk(res['out']), fn + ':connected', 'connected input, disconnected output', case)
@@ -64,17 +65,19 @@ def conn_case(ctx, fn, lines, pend, pinned=None):
     if fn in LATT:
         Dm = ring(len(A)) if D is None else D
         p = res['perm']
-        c0 = cost(Dm, A[np.ix_(p, p)]); c1 = cost(Dm, res['rp'])
+        c0 = cost(Dm, Af[np.ix_(p, p)]); c1 = cost(Dm, np.asarray(res['rp'], dtype=float))
         sym_D = np.array_equal(Dm, Dm.T)
         key = fn + (':cost' if (sym_D or not und) else ':cost-asymmetric-D')
         ctx.check(c1 <= c0, key, 'sum(D*R) rose from %g to %g' % (c0, c1), case)
         prev = c0
         for t, e in enumerate(res['events']):
-            ct = cost(Dm, e['R'])
+            ct = cost(Dm, np.asarray(e['R'], dtype=float))
             if not ctx.check(ct <= prev, key + ('-step' if key.endswith(':cost') else ''), 'accepted swap %d raised sum(D*R) from %g to %g' % (t, prev, ct), case):
                 break
             prev = ct
     lines.append(model_line(fn, A, itr, res['draws'], D=D)); pend.append((fn, case, res))
+    # the input checks: the implementation did not raise, so the model's precheck must answer true
+    lines.append(precheck_line(fn, A)); pend.append(('precheck', case, True))
 
 
 def asym_D_case(ctx, fn, lines, pend):
@@ -82,15 +85,15 @@ def asym_D_case(ctx, fn, lines, pend):
     r = ctx.nprng
     A, fam = gen_graph(r, True, connected=fn in CONN)
     n = len(A)
-    D = r.randint(0, 6, size=(n, n)).astype(float)
+    D, dk = gen_D(r, n, False)
     itr = int(r.choice([1, 2])); seed = int(r.randint(1, 2 ** 31 - 1))
     res = run_impl(fn, A, itr, seed, D=D)
-    case = {'fn': fn, 'A': A.astype(int).tolist(), 'itr': itr, 'seed': seed, 'D': D.astype(int).tolist()}
+    case = {'fn': fn, 'A': jmat(A), 'dtype': str(A.dtype), 'itr': itr, 'seed': seed, 'D': jmat(D)}
     ctx.case(case, nontrivial=len(res['events']) > 0); ctx.count(fn + ':asymD')
     if res['error']:
         return
     p = res['perm']
-    c0 = cost(D, A[np.ix_(p, p)]); c1 = cost(D, res['rp'])
+    c0 = cost(D, A.astype(float)[np.ix_(p, p)]); c1 = cost(D, np.asarray(res['rp'], dtype=float))
     ctx.check(c1 <= c0, fn + ':cost-asymmetric-D', 'sum(D*R) rose from %g to %g under an asymmetric D' % (c0, c1), case)
     lines.append(model_line(fn, A, itr, res['draws'], D=D)); pend.append((fn, case, res))
 
@@ -99,7 +102,7 @@ def mask_case(ctx, lines, pend, asym=False, pinned=None):
     r = ctx.nprng
     fn = 'randomize_graph_partial_und'
     if pinned:
-        A = np.array(pinned['A'], dtype=float); B = np.array(pinned['B'], dtype=float); ms = pinned['itr']; seed = pinned['seed']
+        A, _, B = case_arrays(pinned); ms = pinned['itr']; seed = pinned['seed']
         fam = 'pinned'
     else:
         A, fam = gen_graph(r, True)
@@ -108,12 +111,12 @@ def mask_case(ctx, lines, pend, asym=False, pinned=None):
             B = (r.rand(n, n) < 0.3).astype(float); np.fill_diagonal(B, 0)
         else:
             B = np.triu((r.rand(n, n) < float(r.choice([0.1, 0.3, 0.5]))).astype(float), 1)
-            if r.rand() < 0.4:   # "nonzero" is what counts: signed / non-unit mask values
-                B = B * r.choice([-2, -1, 1, 2], size=(n, n)); ctx.count(fn + ':signed-mask')
+            if r.rand() < 0.5:   # "nonzero" is what counts: signed / fractional mask values (probabilities, half marks)
+                B = B * r.choice([-2, -1, -0.5, 0.125, 0.25, 0.5, 0.75, 2], size=(n, n)); ctx.count(fn + ':signed-or-fractional-mask')
             B = B + B.T
         ms = int(r.choice([1, 2, 4])); seed = int(r.randint(1, 2 ** 31 - 1))
     res = run_impl(fn, A, ms, seed, B=B, t=1.0)
-    case = {'fn': fn, 'A': A.astype(int).tolist(), 'B': B.astype(int).tolist(), 'itr': ms, 'seed': seed}
+    case = {'fn': fn, 'A': jmat(A), 'dtype': str(A.dtype), 'B': jmat(B), 'itr': ms, 'seed': seed}
     ctx.case(case, nontrivial=len(res['events']) > 0); ctx.count(fn + (':asym-mask' if asym else ':sym-mask'))
     if res['error']:
         ctx.count('partial_und:' + res['error'][:20]); return
@@ -128,30 +131,41 @@ def mask_case(ctx, lines, pend, asym=False, pinned=None):
 
 
 def reject_case(ctx, fn, lines, pend):
-    """asymmetric or disconnected input to the undirected _connected routines must raise BCTParamError"""
+    """asymmetric or disconnected input to the undirected _connected routines must raise BCTParamError, valid input must
+    not; in both directions the answer is compared with the model's `precheck` (Model/Rewire.v), on the same matrix"""
     import bct
     r = ctx.nprng
-    n = int(r.randint(4, 9))
-    if r.rand() < 0.5:   # disconnected, symmetric
-        h = n // 2
+    kind = str(r.choice(['disconnected', 'isolated-node', 'asymmetric-cell', 'asymmetric-weight', 'valid', 'valid']))
+    if kind == 'disconnected':                     # two blocks, symmetric
+        n = int(r.randint(4, 9)); h = n // 2
         A = np.zeros((n, n)); A[:h, :h] = r.rand(h, h) < 0.8; A[h:, h:] = r.rand(n - h, n - h) < 0.8
-        A = np.triu(A, 1); A = A + A.T; kind = 'disconnected'
-    else:                # asymmetric
+        A = np.triu(A, 1); A = A + A.T
+    else:
         A, _ = gen_graph(r, True, connected=True)
-        idx = [(i, j) for i in range(n) for j in range(n) if i != j and i < len(A) and j < len(A)]
-        i, j = idx[int(r.randint(len(idx)))]
-        A[i, j] = A[i, j] + 1; kind = 'asymmetric'
-    case = {'fn': fn, 'A': A.astype(int).tolist(), 'itr': 1, 'seed': 1, 'D': None, 'kind': kind}
-    ctx.case(case, nontrivial=True); ctx.count(fn + ':malformed-' + kind)
+        A = A.astype(float); n = len(A)
+        if kind == 'isolated-node':                # connected graph + one node without any connection
+            A2 = np.zeros((n + 1, n + 1)); z = int(r.randint(n + 1)); keep = [x for x in range(n + 1) if x != z]
+            A2[np.ix_(keep, keep)] = A; A = A2
+        elif kind == 'asymmetric-cell':            # one-sided connection
+            x, y = r.choice(n, 2, replace=False)
+            A[x, y] = 0 if A[x, y] != 0 else 1
+        elif kind == 'asymmetric-weight':          # same support, two different weights on one connection
+            xs, ys = np.where(A != 0); t = int(r.randint(len(xs)))
+            A[xs[t], ys[t]] = A[xs[t], ys[t]] * 2 + (0.125 if r.rand() < 0.5 else 0)
+    case = {'fn': fn, 'A': jmat(A), 'dtype': 'float64', 'itr': 0, 'seed': 1, 'D': None, 'kind': kind}
+    ctx.case(case, nontrivial=True); ctx.count(fn + ':precheck-' + kind)
     try:
-        call(getattr(bct, fn), A, 1, seed=1)
-        ctx.fail(fn + ':rejects', kind + ' input accepted (BCTParamError expected)', case)
-        return
+        call(getattr(bct, fn), A.copy(), 0, seed=1, _t=3.0)      # itr = 0: a valid input is returned at once
+        raised = False
     except bct.utils.BCTParamError:
-        pass
+        raised = True
     except Exception as e:
         ctx.fail(fn + ':rejects', kind + ' input raised %s instead of BCTParamError' % type(e).__name__, case); return
-    lines.append(model_line(fn, A, 1, [])); pend.append(('reject:' + fn, case, None))
+    if kind.startswith('valid'):
+        ctx.check(not raised, fn + ':accepts', 'connected symmetric input rejected with BCTParamError', case)
+    else:
+        ctx.check(raised, fn + ':rejects', kind + ' input accepted (BCTParamError expected)', case)
+    lines.append(precheck_line(fn, A)); pend.append(('precheck', case, not raised))
 
 
 def run(ctx):
@@ -185,8 +199,8 @@ def run(ctx):
     for (fn, case, r), m in zip(pend, res):
         if is_err(m):
             ctx.mismatch(fn, 'model error: ' + m['error'], case); continue
-        if fn.startswith('reject:'):
-            if m is not None:
-                ctx.mismatch(fn, 'model accepts input that the implementation rejects', case)
+        if fn == 'precheck':
+            if bool(m) != bool(r):
+                ctx.mismatch(case['fn'] + ':precheck', 'model precheck = %s, implementation %s BCTParamError' % (m, 'does not raise' if r else 'raises'), case)
             continue
         compare_run(ctx, fn, case, r, dec_result(m))
